@@ -161,7 +161,7 @@ def main():
         }],
         "checks": checks,
         "not_applicable": na,
-        "notes": "All checks are static: they load /repo's current working tree with go/packages, build SSA and decide rule instances; no gofakes3 code is executed. Exit 0 held / 1 VIOLATION / 2 UNRESOLVED (the machinery cannot decide: anchor missing, below floor). Known findings: /verif/known_findings.json. Checker self-test with seeded mutants: python3 tools/selftest.py.",
+        "notes": "All checks are static: they load /repo's current working tree with go/packages, build SSA and decide rule instances; no gofakes3 code is executed. Exit 0 held / 1 VIOLATION (also when a rule's anchor is gone or a floor is not met: an UNRESOLVED line for diagnosis, then a VIOLATION line with a replay file) / 2 the checker could not run at all (load or type-check failure of the tree). Known findings: /verif/known_findings.json. Checker self-test with seeded mutants: python3 tools/selftest.py.",
     }
     json.dump(m, open(os.path.join(VERIF, "MANIFEST.json"), "w"), indent=1)
     print("MANIFEST.json: %d checks, %d not applicable" % (len(checks), len(na)))
